@@ -540,7 +540,6 @@ func opNameRule(c *Ctx) {
 	r.Floor("OP-NAMES", 20)
 }
 
-
 // isPureBlock: the block performs no store and no call other than conversions/accessors of its return value.
 func isPureBlock(b *ssa.BasicBlock) bool {
 	for _, in := range b.Instrs {
